@@ -1764,3 +1764,417 @@ Proof.
   - destruct (Nat.eqb (last (i :: path') 1%nat) 0); [|discriminate].
     rewrite Hs in Hc. injection Hc as <-. apply rtg_but_cousins; assumption.
 Qed.
+
+(* =============================================================================================
+   After any history of layouts and edits the property holds as on a fresh tree *)
+Lemma history_but_cousins eps st steps es p : 0 <= eps -> params_pos p ->
+  let t := tree_of_d (apply_edits es (fst (run_steps st steps))) in
+  prop_C19_but_cousins eps p t (snd (run_steps st (steps ++ [(es, p)]))) = true
+  /\ (cousin_guard2 t = true -> prop_C19 eps p t (snd (run_steps st (steps ++ [(es, p)]))) = true).
+Proof.
+  intros He Hp t. rewrite relayout_is_fresh. fold t. split; [apply rt_but_cousins; assumption|].
+  intros HG. unfold prop_C19. rewrite rt_but_cousins, rt_cousins_partial2 by assumption. reflexivity.
+Qed.
+
+(* =============================================================================================
+   K1 for infinitely many inputs: the witness hanging under a chain of n unary nodes *)
+
+(* same x everywhere (y may differ) *)
+Fixpoint xeq (a b : ctree) : Prop :=
+  match a, b with
+  | C x _ ks, C x' _ ks' =>
+      x = x' /\ (fix go (l l' : list ctree) : Prop :=
+                   match l, l' with
+                   | [], [] => True
+                   | k :: r, k' :: r' => xeq k k' /\ go r r'
+                   | _, _ => False
+                   end) ks ks'
+  end.
+
+Lemma xeq_unfold a b : xeq a b <-> cx a = cx b /\ Forall2 xeq (ckids a) (ckids b).
+Proof.
+  destruct a as [x y ks], b as [x' y' ks']. cbn [xeq cx ckids].
+  assert (E : forall l l', (fix go (l l' : list ctree) : Prop :=
+                   match l, l' with
+                   | [], [] => True
+                   | k :: r, k' :: r' => xeq k k' /\ go r r'
+                   | _, _ => False
+                   end) l l' <-> Forall2 xeq l l').
+  { induction l as [|k l IH]; intros [|k' l'].
+    - split; intros _; [constructor|exact I].
+    - split; [intros []|intros H; inversion H].
+    - split; [intros []|intros H; inversion H].
+    - split.
+      + intros [H1 H2]. constructor; [exact H1|apply IH, H2].
+      + intros H. inversion H; subst. split; [assumption|apply IH; assumption]. }
+  rewrite E. reflexivity.
+Qed.
+
+Lemma second_xeq ls xo yo : forall d maxd maxd' depth depth' cum,
+  xeq (second ls xo yo maxd depth cum d) (second ls xo yo maxd' depth' cum d).
+Proof.
+  induction d as [x m s ks IH] using dtree_ind'. intros. apply xeq_unfold. cbn [second cx ckids].
+  split; [reflexivity|]. induction ks as [|k ks IHk]; [constructor|].
+  inversion IH as [|? ? Hk Hks]; subst. cbn [map]. constructor; [apply Hk|apply IHk, Hks].
+Qed.
+
+Lemma xeq_levels : forall k a b, xeq a b -> map cx (clevel k a) = map cx (clevel k b).
+Proof.
+  induction k as [|k IH]; intros a b H; apply xeq_unfold in H; destruct H as [H1 H2].
+  - cbn. f_equal. exact H1.
+  - cbn [clevel]. induction H2 as [|x y l l' Hxy _ IHl]; [reflexivity|].
+    cbn [flat_map]. rewrite !map_app, (IH _ _ Hxy), IHl. reflexivity.
+Qed.
+
+Lemma xeq_height : forall a b, xeq a b -> cheight a = cheight b.
+Proof.
+  induction a as [x y ks IH] using ctree_ind'. intros [x' y' ks'] H. apply xeq_unfold in H.
+  cbn [ckids] in H. destruct H as [_ H]. cbn [cheight]. f_equal.
+  revert IH. induction H as [|k k' l l' Hk _ IHl]; intros IH; [reflexivity|].
+  inversion IH as [|? ? H1 H2]; subst. cbn [fold_right]. rewrite (H1 _ Hk), (IHl H2). reflexivity.
+Qed.
+
+Lemma xeq_adjust : forall a b, xeq a b -> adjust a = adjust b.
+Proof.
+  induction a as [x y ks IH] using ctree_ind'. intros [x' y' ks'] H. apply xeq_unfold in H.
+  cbn [cx ckids] in H. destruct H as [Hx H]. subst x'.
+  destruct H as [|k k' l l' Hk Hl]; [reflexivity|]. cbn [adjust].
+  inversion IH as [|? ? H1 H2]; subst. rewrite (H1 _ Hk). f_equal.
+  clear Hk H1 IH. revert H2. induction Hl as [|c c' r r' Hc _ IHr]; intros H2; [reflexivity|].
+  inversion H2 as [|? ? H3 H4]; subst. cbn [map]. rewrite (H3 _ Hc), (IHr H4). reflexivity.
+Qed.
+
+Lemma xeq_cshift q : forall a b, xeq a b -> xeq (cshift q a) (cshift q b).
+Proof.
+  induction a as [x y ks IH] using ctree_ind'. intros [x' y' ks'] H. apply xeq_unfold in H.
+  cbn [cx ckids] in H. destruct H as [Hx H]. subst x'. apply xeq_unfold. cbn [cshift cx ckids].
+  split; [reflexivity|]. revert IH. induction H as [|k k' l l' Hk _ IHl]; intros IH; [constructor|].
+  inversion IH as [|? ? H1 H2]; subst. cbn [map]. constructor; [apply H1, Hk|apply IHl, H2].
+Qed.
+
+Lemma forallb_map' {A B} (f : A -> B) (g : B -> bool) (l : list A) :
+  forallb g (map f l) = forallb (fun x => g (f x)) l.
+Proof. induction l as [|a l IH]; [reflexivity|]. cbn [map forallb]. rewrite IH. reflexivity. Qed.
+
+Lemma ordpairs_map {A B} (f : A -> B) (P : B -> B -> bool) (l : list A) :
+  ordpairs (fun a b => P (f a) (f b)) l = ordpairs P (map f l).
+Proof.
+  induction l as [|a l IH]; [reflexivity|]. cbn [ordpairs map]. rewrite IH, forallb_map'. reflexivity.
+Qed.
+
+Lemma forallb_ext' {A} (f g : A -> bool) (l : list A) : (forall x, f x = g x) -> forallb f l = forallb g l.
+Proof. intros H. induction l as [|a l IH]; [reflexivity|]. cbn [forallb]. rewrite H, IH. reflexivity. Qed.
+
+Lemma xeq_cousins eps ss sts a b : xeq a b -> cousins_ok eps ss sts a = cousins_ok eps ss sts b.
+Proof.
+  intros H. unfold cousins_ok. rewrite (xeq_height a b H). apply forallb_ext'. intros k.
+  rewrite (ordpairs_map cx (fun u v => leq_eps eps (u + Qmin ss sts) v) (clevel k a)).
+  rewrite (ordpairs_map cx (fun u v => leq_eps eps (u + Qmin ss sts) v) (clevel k b)).
+  rewrite (xeq_levels k a b H). reflexivity.
+Qed.
+
+(* one unary node on top: the layout below it has the same x coordinates *)
+Lemma rt_unary p t : fp (p_ss p) (p_sts p) t <> [] ->
+  exists x y c1, reingold_tilford p (nd [t]) = C x y [c1] /\ xeq c1 (reingold_tilford p t).
+Proof.
+  intros Hne. unfold reingold_tilford, rt_gen, first_pass.
+  set (ks := fp (p_ss p) (p_sts p) t) in *.
+  assert (E : fp (p_ss p) (p_sts p) (nd [t]) = [D (midpoint ks) 0 0 ks]).
+  { unfold nd. cbn [fp map]. fold ks. destruct ks as [|k0 kr]; [congruence|]. reflexivity. }
+  rewrite E. set (r := D (midpoint ks) 0 0 ks).
+  cbn [second map]. change (Qred (0 + 0 + 0)) with 0.
+  set (inner := second (p_ls p) (p_xo p) (p_yo p) (height (nd [t])) 2 0 r).
+  set (orig := second (p_ls p) (p_xo p) (p_yo p) (height t) 1 0 r).
+  assert (Hx : xeq inner orig) by apply second_xeq.
+  unfold third. cbn [adjust map fold_left]. rewrite (xeq_adjust _ _ Hx).
+  destruct (Qeq_bool (adjust orig) 0).
+  - eexists _, _, inner. split; [reflexivity|exact Hx].
+  - cbn [cshift map]. eexists _, _, (cshift (adjust orig) inner). split; [reflexivity|].
+    apply xeq_cshift, Hx.
+Qed.
+
+Lemma cousins_under_unary eps ss sts x y c1 :
+  cousins_ok eps ss sts c1 = false -> cousins_ok eps ss sts (C x y [c1]) = false.
+Proof.
+  intros HF. destruct (cousins_ok eps ss sts (C x y [c1])) eqn:E; [|reflexivity].
+  rewrite <- HF. symmetry. unfold cousins_ok in *. apply forallb_forall. intros k Hk.
+  rewrite forallb_forall in E. apply in_seq in Hk.
+  assert (Hin : In (S k) (seq 0 (cheight (C x y [c1])))).
+  { apply in_seq. cbn [cheight fold_right]. lia. }
+  specialize (E (S k) Hin). cbn [clevel ckids flat_map] in E. rewrite app_nil_r in E. exact E.
+Qed.
+
+Fixpoint under_chain (n : nat) (t : tree) : tree :=
+  match n with O => t | S n' => nd [under_chain n' t] end.
+
+Lemma fp_under_chain_ne ss sts n t : fp ss sts t <> [] -> fp ss sts (under_chain n t) <> [].
+Proof.
+  intros H. destruct n as [|n]; [exact H|]. cbn [under_chain]. unfold nd. cbn [fp map].
+  destruct (fp ss sts (under_chain n t)); discriminate.
+Qed.
+
+Lemma cousins_under_chain eps p t : fp (p_ss p) (p_sts p) t <> [] ->
+  cousins_ok eps (p_ss p) (p_sts p) (reingold_tilford p t) = false ->
+  forall n, cousins_ok eps (p_ss p) (p_sts p) (reingold_tilford p (under_chain n t)) = false.
+Proof.
+  intros Hne HF. induction n as [|n IH]; [exact HF|]. cbn [under_chain].
+  destruct (rt_unary p (under_chain n t) (fp_under_chain_ne _ _ n t Hne)) as [x [y [c1 [E Hx]]]].
+  rewrite E. apply cousins_under_unary. rewrite (xeq_cousins _ _ _ _ _ Hx). exact IH.
+Qed.
+
+Lemma k1_family_refuted : forall n,
+  params_pos unit_params
+  /\ prop_C19_but_cousins 0 unit_params (under_chain n k1_tree)
+       (reingold_tilford unit_params (under_chain n k1_tree)) = true
+  /\ cousins_ok 0 (p_ss unit_params) (p_sts unit_params)
+       (reingold_tilford unit_params (under_chain n k1_tree)) = false.
+Proof.
+  intros n. assert (Hp : params_pos unit_params) by (repeat split).
+  split; [exact Hp|]. split; [apply rt_but_cousins; [lra|exact Hp]|].
+  apply cousins_under_chain.
+  - vm_compute. discriminate.
+  - vm_compute. reflexivity.
+Qed.
+
+Lemma tsize_under_chain n t : tsize (under_chain n t) = (n + tsize t)%nat.
+Proof. induction n as [|n IH]; [reflexivity|]. cbn [under_chain nd tsize fold_right]. rewrite IH. lia. Qed.
+
+(* =============================================================================================
+   The widest guard: pairwise condition on the children of every node *)
+
+Definition crossA (m : Q) (d e : dtree) : Prop :=
+  forall j off a b, In a (lv (S j) off d) -> In b (lv (S j) off e) -> a + m <= b.
+
+Lemma lvS_reshift j off d sh' dl : sh' == dsh d + dl ->
+  Forall2 (fun a b => b == a + dl) (lv (S j) off d) (lv (S j) off (reshift d sh')).
+Proof.
+  intros E. rewrite !lv_S. cbn [reshift dmod dsh dkids]. apply lvs_shift. rewrite E. lra.
+Qed.
+
+Lemma crossA_reshift m d e sd se d1 d2 :
+  sd == dsh d + d1 -> se == dsh e + d2 -> d1 <= d2 -> crossA m d e ->
+  crossA m (reshift d sd) (reshift e se).
+Proof.
+  intros E1 E2 Hle H j off a b Ha Hb.
+  destruct (Forall2_In_r _ _ _ _ (lvS_reshift j off d sd d1 E1) Ha) as [a0 [Ha0 Ea]].
+  destruct (Forall2_In_r _ _ _ _ (lvS_reshift j off e se d2 E2) Hb) as [b0 [Hb0 Eb]].
+  specialize (H j off a0 b0 Ha0 Hb0). lra.
+Qed.
+
+Lemma Forall_bump_crossA m s idx d k : 0 <= s -> forall r k', (k <= k')%nat ->
+  Forall (crossA m d) r ->
+  Forall (crossA m (reshift d (Qred (dsh d + s * (Z.of_nat k # Pos.of_nat idx))))) (bump s idx k' r).
+Proof.
+  intros Hs. induction r as [|e r IH]; intros k' Hk HF; [constructor|].
+  inversion HF as [|? ? He Hr]; subst. rewrite bump_cons. constructor; [|apply IH; [lia|exact Hr]].
+  eapply crossA_reshift; [apply Qred_correct|apply Qred_correct| |exact He].
+  pose proof (frac_le k k' idx Hk). nra.
+Qed.
+
+Lemma ordP_bumpA m s idx : 0 <= s -> forall l k, ordP (crossA m) l -> ordP (crossA m) (bump s idx k l).
+Proof.
+  intros Hs. induction l as [|d l IH]; intros k HO; [exact I|].
+  cbn [ordP] in HO. destruct HO as [H1 H2]. rewrite bump_cons. cbn [ordP]. split; [|apply IH, H2].
+  apply Forall_bump_crossA; [exact Hs|lia|exact H1].
+Qed.
+
+(* the condition on a pair of siblings, on decorated trees *)
+Definition dflat (d : dtree) : Prop := Forall dleaf (dkids d).
+Definition pairP (j : nat) (d e : dtree) : Prop :=
+  dleaf d \/ dleaf e \/ (dflat d /\ dflat e)
+  \/ (j = 0%nat /\ hR (sk_d d) = sheight (sk_d d) /\ hL (sk_d e) = sheight (sk_d e)).
+
+Lemma ratio0 idx : ratio 0 idx == 1.
+Proof. unfold ratio, Qeq. cbn. lia. Qed.
+
+Lemma crossA_new m sts d nd j idx s sd sn :
+  0 <= m -> m <= sts -> (j < idx)%nat -> pairP j d nd ->
+  sepF m (dkids d) -> sepF m (dkids nd) ->
+  subtree_shift sts d nd j idx <= s ->
+  sd == dsh d + s * (Z.of_nat j # Pos.of_nat idx) ->
+  sn == dsh nd + s * (Z.of_nat idx # Pos.of_nat idx) ->
+  crossA m (reshift d sd) (reshift nd sn).
+Proof.
+  intros Hm Hsts Hj HP HSd HSn Hs Esd Esn.
+  destruct HP as [HP|[HP|[[HP1 HP2]|[Hj0 [HR HL]]]]].
+  - intros j' off a b Ha _. rewrite lv_S in Ha. cbn [reshift dkids] in Ha. unfold dleaf in HP.
+    rewrite HP in Ha. destruct Ha.
+  - intros j' off a b _ Hb. rewrite lv_S in Hb. cbn [reshift dkids] in Hb. unfold dleaf in HP.
+    rewrite HP in Hb. destruct Hb.
+  - intros [|j'] off a b Ha Hb.
+    + eapply (cross1_new m sts d nd j idx s sd sn); eassumption.
+    + exfalso. rewrite lv_S in Ha. cbn [reshift dkids] in Ha.
+      rewrite (lvs_leaves j' _ (dkids d) HP1) in Ha. destruct Ha.
+  - subst j. intros j' off a b Ha Hb. rewrite lv_S in Ha, Hb. cbn [reshift dmod dsh dkids] in Ha, Hb.
+    unfold subtree_shift in Hs.
+    destruct (dkids d) as [|kd0 kdr] eqn:EKd; [destruct Ha|].
+    destruct (dkids nd) as [|kn0 knr] eqn:EKn; [destruct Hb|].
+    cbv beta iota in Hs. rewrite <- EKd, <- EKn in *.
+    assert (N0 : dkids d <> []) by (rewrite EKd; discriminate).
+    assert (N1 : dkids nd <> []) by (rewrite EKn; discriminate).
+    rewrite (sk_d_unfold d), hR_chain in HR. rewrite (sk_d_unfold nd) in HL.
+    cbn [sheight hL] in HR, HL. rewrite <- map_rev in HR. injection HR as HR. injection HL as HL.
+    assert (Hfuel : (maxh sheight (map sk_d (dkids d)) <= dheight d)%nat).
+    { rewrite dheight_sk, (sk_d_unfold d). cbn [sheight]. lia. }
+    destruct (contour_spec m sts (ratio 0 idx) (ratio0 idx) Hm (dheight d) (dkids d) (dkids nd)
+                (Qred (dmod d + dsh d)) (Qred (dmod nd + dsh nd)) 0 N0 N1 Hfuel HSd HSn HR HL) as [_ CS].
+    assert (F0 : (Z.of_nat 0 # Pos.of_nat idx) == 0) by reflexivity.
+    assert (F1 : (Z.of_nat idx # Pos.of_nat idx) == 1) by (apply frac_one; lia).
+    rewrite F0 in Esd. rewrite F1 in Esn.
+    assert (EA : off + dmod d + sd == Qred (dmod d + dsh d) + off) by (rewrite Qred_correct, Esd; lra).
+    assert (EB : off + dmod nd + sn == Qred (dmod nd + dsh nd) + (off + s)) by (rewrite Qred_correct, Esn; lra).
+    destruct (Forall2_In_r _ _ _ _ (lvs_shift off j' (dkids d) _ _ EA) Ha) as [a1 [Ha1 Ea]].
+    destruct (Forall2_In_r _ _ _ _ (lvs_shift (off + s) j' (dkids nd) _ _ EB) Hb) as [b1 [Hb1 Eb]].
+    specialize (CS j' a1 b1 Ha1 Hb1). lra.
+Qed.
+
+Lemma pairP_kids j d e d' e' : dkids d = dkids d' -> dkids e = dkids e' -> pairP j d e -> pairP j d' e'.
+Proof.
+  intros E1 E2. unfold pairP, dleaf, dflat. rewrite (sk_d_unfold d), (sk_d_unfold e), (sk_d_unfold d'), (sk_d_unfold e').
+  rewrite E1, E2. tauto.
+Qed.
+
+Definition PairsAll (KL : list (list dtree)) : Prop :=
+  forall i k ki kk, (i < k)%nat -> nth_error KL i = Some ki -> nth_error KL k = Some kk ->
+                    pairP i (D 0 0 0 ki) (D 0 0 0 kk).
+
+Definition kidsep (m : Q) (d : dtree) : Prop := sepF m (dkids d).
+
+Lemma place_safe ss sts m : 0 <= m -> m <= sts -> forall todo done pend,
+  PairsAll (map dkids done ++ todo) ->
+  Forall (sepF m) todo -> Forall (kidsep m) done -> ordP (crossA m) done ->
+  let r := place ss sts done todo pend in
+  Forall (kidsep m) r /\ ordP (crossA m) r.
+Proof.
+  intros Hm Hsts. induction todo as [|dk rest IH]; intros done pend HPA Htodo Hdone Hcross.
+  - cbn [place]. split; assumption.
+  - inversion Htodo as [|? ? Hdk Hrest]; subst. cbn [place].
+    set (x := match done with
+              | [] => match dk with [] => 0 | _ :: _ => midpoint dk end
+              | d0 :: _ => Qred (dx (last done d0) + ss)
+              end).
+    set (md := match done, dk with
+               | _ :: _, _ :: _ => Qred (x - midpoint dk)
+               | _, _ => 0
+               end).
+    set (nd := D x md (hd 0 pend) dk).
+    assert (Hnd : kidsep m nd) by exact Hdk.
+    destruct done as [|d0 done'].
+    + apply IH; [exact HPA|exact Hrest|constructor; [exact Hnd|constructor]|]. cbn. split; [constructor|exact I].
+    + set (done := d0 :: done') in *. set (idx := length done).
+      set (s := max_shift sts nd idx 0 done 0).
+      assert (Hs : 0 <= s) by apply max_shift_ge.
+      apply IH.
+      * rewrite bump_dkids, map_app. cbn [map dkids nd]. rewrite <- app_assoc. exact HPA.
+      * exact Hrest.
+      * apply bump_Forall; [intros x0 m0 sh sh' ks H; exact H|].
+        apply Forall_app. split; [exact Hdone|constructor; [exact Hnd|constructor]].
+      * rewrite bump_app. apply ordP_app. split; [apply ordP_bumpA; assumption|].
+        cbn [Nat.add]. fold idx. rewrite bump_cons. cbn [bump]. split; [cbn; split; [constructor|exact I]|].
+        intros d' e Hd' [<-|[]].
+        destruct (bump_In _ _ _ _ _ Hd') as [i [d [Hi ->]]]. cbn [Nat.add].
+        assert (Hlt : (i < idx)%nat) by (apply nth_error_Some; rewrite Hi; discriminate).
+        assert (Hd : kidsep m d).
+        { rewrite Forall_forall in Hdone. apply Hdone. eapply nth_error_In. exact Hi. }
+        assert (HP : pairP i d nd).
+        { eapply (pairP_kids i (D 0 0 0 (dkids d)) (D 0 0 0 dk)); [reflexivity|reflexivity|].
+          apply (HPA i idx); [exact Hlt| |].
+          - rewrite nth_error_app1 by (rewrite map_length; exact Hlt). apply map_nth_error. exact Hi.
+          - rewrite nth_error_app2 by (rewrite map_length; unfold idx; lia).
+            rewrite map_length. fold idx. rewrite Nat.sub_diag. reflexivity. }
+        eapply (crossA_new m sts d nd i idx s); try eassumption.
+        -- apply (max_shift_each sts nd idx done 0 0 i d Hi).
+        -- apply Qred_correct.
+        -- apply Qred_correct.
+Qed.
+
+Lemma node_pairs_spec : forall l j0, node_pairs j0 l = true ->
+  forall i k a b, (i < k)%nat -> nth_error l i = Some a -> nth_error l k = Some b ->
+  sleaf a = true \/ sleaf b = true \/ pair_ok (j0 + i) a b = true.
+Proof.
+  induction l as [|x l IH]; intros j0 H i k a b Hik Ha Hb; [destruct i; discriminate|].
+  cbn [node_pairs] in H. apply andb_true_iff in H. destruct H as [H1 H2].
+  destruct i as [|i].
+  - cbn in Ha. injection Ha as ->. destruct k as [|k]; [lia|]. cbn in Hb.
+    apply orb_true_iff in H1. destruct H1 as [H1|H1]; [left; exact H1|]. right.
+    rewrite forallb_forall in H1. specialize (H1 b (nth_error_In _ _ Hb)).
+    apply orb_true_iff in H1. rewrite Nat.add_0_r. exact H1.
+  - destruct k as [|k]; [lia|]. cbn in Ha, Hb.
+    replace (j0 + S i)%nat with (S j0 + i)%nat by lia. apply (IH (S j0) H2 i k a b); [lia|exact Ha|exact Hb].
+Qed.
+
+Lemma leaves_of_sk ss sts k : forallb sleaf (skids (sk_of k)) = true -> Forall dleaf (fp ss sts k).
+Proof.
+  intros HG. rewrite forallb_forall in HG. apply Forall_forall. intros d Hd. unfold dleaf.
+  assert (Hin : In (sk_d d) (skids (sk_of k))) by (rewrite <- (sk_fp ss sts k); apply in_map, Hd).
+  specialize (HG _ Hin). rewrite sleaf_sk_d in HG. destruct (dkids d); [reflexivity|discriminate].
+Qed.
+
+Lemma nth_error_map_some {A B} (f : A -> B) : forall l i y, nth_error (map f l) i = Some y ->
+  exists x, nth_error l i = Some x /\ f x = y.
+Proof.
+  induction l as [|a l IH]; intros i y H; [destruct i; discriminate|].
+  destruct i as [|i]; cbn in *; [injection H as <-; exists a; auto|apply IH, H].
+Qed.
+
+Lemma pairs_of_guard ss sts ks : node_pairs 0 (map sk_of ks) = true -> PairsAll (map (fp ss sts) ks).
+Proof.
+  intros HG i k ki kk Hik Hi Hk.
+  apply nth_error_map_some in Hi. apply nth_error_map_some in Hk.
+  destruct Hi as [ti [Hti <-]]. destruct Hk as [tk [Htk <-]].
+  destruct (node_pairs_spec _ 0 HG i k (sk_of ti) (sk_of tk) Hik
+              (map_nth_error sk_of _ _ Hti) (map_nth_error sk_of _ _ Htk)) as [H|[H|H]].
+  - left. unfold dleaf. cbn [dkids]. rewrite (sk_of_fp ss sts ti) in H. cbn [sleaf] in H.
+    destruct (fp ss sts ti); [reflexivity|discriminate].
+  - right. left. unfold dleaf. cbn [dkids]. rewrite (sk_of_fp ss sts tk) in H. cbn [sleaf] in H.
+    destruct (fp ss sts tk); [reflexivity|discriminate].
+  - right. right. cbn [Nat.add] in H. unfold pair_ok in H. apply orb_true_iff in H. destruct H as [H|H].
+    + left. apply andb_true_iff in H. destruct H as [H1 H2]. unfold dflat. cbn [dkids].
+      split; apply leaves_of_sk; assumption.
+    + right. apply andb_true_iff in H. destruct H as [H H3]. apply andb_true_iff in H. destruct H as [H1 H2].
+      apply Nat.eqb_eq in H1, H2, H3. cbn [sk_d]. rewrite <- (sk_of_fp ss sts ti), <- (sk_of_fp ss sts tk).
+      auto.
+Qed.
+
+Lemma guard3_unfold l : cguard3_sk (Sk l) = forallb cguard3_sk l && node_pairs 0 l.
+Proof. reflexivity. Qed.
+
+Lemma fp_sep3 ss sts m : 0 <= m -> m <= ss -> m <= sts ->
+  forall t, cguard3_sk (sk_of t) = true -> sepF m (fp ss sts t).
+Proof.
+  intros Hm Hss Hsts. induction t as [g n a ks IH] using tree_ind'. intros HG.
+  cbn [sk_of] in HG. rewrite guard3_unfold in HG. apply andb_true_iff in HG. destruct HG as [HGk HG].
+  rewrite forallb_forall in HGk.
+  assert (Skids : Forall (fun k => sepF m (fp ss sts k)) ks).
+  { rewrite Forall_forall in IH. apply Forall_forall. intros k Hk. apply (IH k Hk).
+    apply HGk. apply in_map. exact Hk. }
+  destruct (fp_inv ss sts (T g n a ks)) as [_ [Hcx Hmo]].
+  assert (Htodo : Forall (sepF m) (map (fp ss sts) ks)) by (apply Forall_map; exact Skids).
+  destruct (place_safe ss sts m Hm Hsts (map (fp ss sts) ks) [] (map (fun _ => 0) ks)
+                       (pairs_of_guard ss sts ks HG) Htodo (Forall_nil _) I) as [HF HC].
+  change (place ss sts [] (map (fp ss sts) ks) (map (fun _ => 0) ks)) with (fp ss sts (T g n a ks)) in HF, HC.
+  set (F := fp ss sts (T g n a ks)) in *.
+  intros [|j] off.
+  - rewrite lvs0. apply ordP_map. eapply ordP_impl; [|apply (chain_pairs ss ltac:(lra) F Hcx Hmo)].
+    intros x y Hxy. unfold gap. cbn beta in Hxy. lra.
+  - unfold lvs. apply ordP_flat_map.
+    + intros d Hd. rewrite lv_S. rewrite Forall_forall in HF. apply (HF d Hd).
+    + eapply ordP_impl; [|exact HC]. intros d e H a0 b0 Ha Hb. apply (H j off a0 b0 Ha Hb).
+Qed.
+
+Lemma rt_cousins_safe eps p t : 0 <= eps -> params_pos p -> cousin_safe t = true ->
+  cousins_ok eps (p_ss p) (p_sts p) (reingold_tilford p t) = true.
+Proof.
+  intros He Hp HG. destruct (min_facts p Hp) as [Hm [Hm1 Hm2]].
+  unfold cousins_ok. apply forallb_forall. intros k _.
+  eapply ordpairs_true; [|apply (rt_cousinsP_sep p t)].
+  - intros a b Hab. cbn beta in Hab. apply leq_eps_true; assumption.
+  - apply fp_sep3; assumption.
+Qed.
+
+Lemma rt_cousins_failure_safe p t : params_pos p ->
+  cousins_ok 0 (p_ss p) (p_sts p) (reingold_tilford p t) = false -> cousin_safe t = false.
+Proof.
+  intros Hp HF. destruct (cousin_safe t) eqn:E; [|reflexivity].
+  rewrite (rt_cousins_safe 0 p t) in HF; [discriminate|lra|exact Hp|exact E].
+Qed.
